@@ -48,6 +48,13 @@ PROPS["C08"] = {"units": ["print"], "kani": [], "replay": [], "title": "Compact 
     "level_text": "string_literal is proved to emit exactly the RFC 8785 escaping of every string (all characters, all lengths); digit, the compact option record and the generic array/object emitters are proved per function.",
     "level_note": _PRINT_NOTE, "design_ref": "DESIGN.md §6.3"}
 
+PROPS["C13"] = {"units": ["print"], "kani": [], "replay": [], "title": "Pretty-print layout", "level": "proof",
+    "level_text": "The generic container printers (print_array/print_object) are proved to emit exactly the documented layout for any number of items and any option record, relative to the trait contract of their items; pre_compute_*_size are proved to compute the printed width and the expansion rule; leaf sizes, indentation and spacing helpers are proved.",
+    "level_note": _PRINT_NOTE, "design_ref": "DESIGN.md §6.3"}
+PROPS["C04"] = {"units": ["print"], "kani": [], "replay": [], "title": "Printing round-trips", "level": "proof",
+    "level_text": "String level: string_literal emits '\"' esc_str(s) '\"' for every string (proved); the container emitters emit only the documented separators and whitespace (proved). The re-parse half is the parser's contracts (C01/C02).",
+    "level_note": _PRINT_NOTE + " The lemma that str_decode(lit(s)) == s is stated in DESIGN.md and not yet machine-checked.", "design_ref": "DESIGN.md §6.3"}
+
 NOT_APPLICABLE = {
     "C16": "serde Serializer/Deserializer plumbing: every deciding fact (derive expansion, number formatting, serde_json's shape) lives in dependencies whose behaviour would be assumed; no contract within reach decides it (DESIGN.md §7)",
     "C17": "same as C16: the deciding case analysis is inside json-number's Serialize/Deserialize; the in-repo ingredient (duplicate keys collapse through Object::insert) is covered by C06 (DESIGN.md §7)",
